@@ -65,14 +65,15 @@ Theorem C13_closed_accepted :
     forall x, reach (cells (hp st)) (next h) g' x -> x < next h ->
       (exists a, cells h x = Some (CAttr a) /\ shared_attr a) \/
       (deep = false /\ exists m md k, cells h m = Some (CMeta md) /\ In (k, MObj x) (m_data md)) \/
+      (exists o v0, cells h o = Some (CValue v0) /\ v_const v0 = Some x) \/
       (In x (passed st) /\ forall k, ~ In x (owned (cells h) k g)).
 Proof.
   intros allow deep h fuel g st g' Hc Hg Hd Hr x Hx Hlt. unfold graph_clone in Hr.
   destruct (graph_clone_good allow deep h Hc fuel g st (Ok g') Hg Hr g' eq_refl) as [G _].
   assert (Hs : forall v, In v (passed st) \/ In v (kept st) -> assoc v (vmap st) = None).
   { intros v [Hv|Hv]; [|apply (g_kept _ _ _ _ G Hd) in Hv]; apply (clone_graph_checked _ _ _ _ _ _ _ Hr v Hv). }
-  destruct (graph_clone_closed allow deep h Hc fuel g st (Ok g') Hg Hr g' x eq_refl Hs Hx Hlt) as [K|[K|[K1 K2]]];
-    [left; exact K|right; left; exact K|right; right].
+  destruct (graph_clone_closed allow deep h Hc fuel g st (Ok g') Hg Hr g' x eq_refl Hs Hx Hlt) as [K|[K|[K|[K1 K2]]]];
+    [left; exact K|right; left; exact K|right; right; left; exact K|right; right; right].
   split; [|exact K2]. destruct K1 as [K1|K1]; [exact K1|apply (g_kept _ _ _ _ G Hd), K1].
 Qed.
 Print Assumptions C13_closed_accepted.
